@@ -402,6 +402,7 @@ func main() {
 	rng := hx.NewRng(args.Seed)
 	meta := hx.NewMeta("h_pipe", args.Seed, args.Tier)
 	devnull, _ := os.OpenFile(os.DevNull, os.O_WRONLY, 0)
+	hx.KeepStderr = os.Stderr
 	os.Stderr = devnull // the tail handler reports unhandled exceptions on stderr
 	withPanics := args.Prop == "C07"
 	meta.Rule = "random pipeline builds (AddFirst/AddLast/AddHandler at -1, 0, size-1, size-2, random, illegal positions; multi-handler calls; repeated instances) over handlers with random subsets of the six interfaces and a behaviour per kind (forward/stop/write-back/trigger/close" + map[bool]string{true: "/panic with error, string, runtime, net.Error values", false: ""}[withPanics] + "), then one entry point (Fire*, Channel.Write/Trigger, ctx.Write/Trigger at a position); non-trivial = an insertion strictly inside >= 2 handlers or an event visiting >= 2 handlers; distinct = distinct (table, ops, entry)"
